@@ -7,3 +7,110 @@ package jobconfigcontroller
 // failed syncs of this reconciler are requeued without limit (C20)
 //@ func Reconciler.MaxRequeues
 //@   ensures [C20] unlimited-requeues: result == -1
+
+// ---- util.go (C15) ------------------------------------------------------------------------------------------------------------
+
+//@ pure distinctJobs(items []*execution.Job) bool = forall a int, b int :: 0 <= a && a < b && b < len(items) ==> items[a] != items[b]
+
+// exactly the items satisfying the filter, each once, and the input list is left as it was
+//@ func FilterJobs
+//@   tags C15
+//@   requires distinctJobs(items)
+//@   fresh result
+//@   loop 1 invariant -1 <= rangeindex && rangeindex < len(items)
+//@   loop 1 invariant forall k int :: {filtered[k]} 0 <= k && k < len(filtered) ==> filterFunc(filtered[k]) && (exists i int :: 0 <= i && i <= rangeindex && items[i] == filtered[k])
+//@   loop 1 invariant forall i int :: {items[i]} 0 <= i && i <= rangeindex && filterFunc(items[i]) ==> (exists k int :: 0 <= k && k < len(filtered) && filtered[k] == items[i])
+//@   loop 1 invariant forall k int, l int :: 0 <= k && k < l && l < len(filtered) ==> filtered[k] != filtered[l]
+//@   ensures [C15] only-matching-items: forall k int :: {result[k]} 0 <= k && k < len(result) ==> filterFunc(result[k]) && (exists i int :: 0 <= i && i < len(items) && items[i] == result[k])
+//@   ensures [C15] every-matching-item: forall i int :: {items[i]} 0 <= i && i < len(items) && filterFunc(items[i]) ==> (exists k int :: 0 <= k && k < len(result) && result[k] == items[i])
+//@   ensures [C15] each-once: distinctJobs(result)
+//@   ensures [C15] input-list-untouched: forall i int :: 0 <= i && i < len(items) ==> items[i] == old(items[i])
+
+// a reference describes a Job
+//@ pure refOf(ref execution.JobReference, rj *execution.Job) bool =
+//@     ref.UID == rj.UID && ref.Name == rj.Name && ns(ref.CreationTimestamp.Time) == ns(rj.CreationTimestamp.Time) && ref.Phase == rj.Status.Phase
+//@     && (ref.StartTime == nil) == rj.Status.StartTime.IsZero() && (ref.StartTime != nil ==> ns(ref.StartTime.Time) == ns(rj.Status.StartTime.Time))
+
+// one reference per Job and one Job per reference
+//@ func ToJobReferences
+//@   tags C15
+//@   requires forall i int :: 0 <= i && i < len(items) ==> items[i] != nil
+//@   fresh result
+//@   loop 1 invariant -1 <= rangeindex && rangeindex < len(items) && len(refs) == rangeindex + 1
+//@   loop 1 invariant forall k int :: {refs[k]} {items[k]} 0 <= k && k <= rangeindex ==> refOf(refs[k], items[k])
+//@   ensures [C15] as-many-references-as-jobs: len(result) == len(items)
+//@   ensures [C15] every-job-is-listed: forall i int :: {items[i]} 0 <= i && i < len(items) ==> (exists k int :: 0 <= k && k < len(result) && refOf(result[k], items[i]))
+//@   ensures [C15] every-reference-is-a-job: forall k int :: {result[k]} 0 <= k && k < len(result) ==> (exists i int :: 0 <= i && i < len(items) && refOf(result[k], items[i]))
+
+// ---- reconciler.go (C15) ------------------------------------------------------------------------------------------------------
+
+// The differ only selects what is logged and which events are emitted. ASSUMED: no effect on the status that is written.
+//@ extern func newJobListDiffer
+//@   params items
+//@   fresh result
+//@ extern func jobListDiffer.GetDiff
+//@   params l, prevActive
+//@   fresh result0, result1, result2
+
+// JSON equality of two JobConfigs that differ only in status (cmp.IsJSONEqual). ASSUMED: equal JSON means equal status
+// fields, element by element, and equal instants (timestamps in API objects have whole-second precision).
+//@ pure sameRefs(a []execution.JobReference, b []execution.JobReference) bool = len(a) == len(b) && (forall k int :: {a[k]} {b[k]} 0 <= k && k < len(a) ==>
+//@     a[k].UID == b[k].UID && a[k].Name == b[k].Name && a[k].Phase == b[k].Phase && ns(a[k].CreationTimestamp.Time) == ns(b[k].CreationTimestamp.Time)
+//@     && (a[k].StartTime == nil) == (b[k].StartTime == nil) && execution.optNs(a[k].StartTime) == execution.optNs(b[k].StartTime))
+// ASSUMED as well: marshalling a JobConfig to JSON does not fail (on such a failure SyncOne silently skips the update).
+//@ extern func IsJobConfigStatusEqual
+//@   params orig, updated
+//@   ensures result1 == nil
+//@   ensures result1 == nil && result0 ==> orig.Status.State == updated.Status.State && orig.Status.Active == updated.Status.Active && orig.Status.Queued == updated.Status.Queued
+//@        && sameRefs(orig.Status.ActiveJobs, updated.Status.ActiveJobs) && sameRefs(orig.Status.QueuedJobs, updated.Status.QueuedJobs)
+//@        && execution.optNs(orig.Status.LastScheduled) == execution.optNs(updated.Status.LastScheduled) && execution.optNs(orig.Status.LastExecuted) == execution.optNs(updated.Status.LastExecuted)
+
+// the Jobs of a JobConfig (namespace ns, UID uid) in the Job cache
+//@ pure wanted(rj *execution.Job, active bool) bool = active ? job.IsActive(rj) : job.IsQueued(rj)
+// a reference list names exactly the cached Jobs that are active (resp. queued)
+//@ pure listsExactly(refs []execution.JobReference, ns string, uid string, active bool) bool =
+//@     (forall i int :: {jobsCachedAt(ns, uid, i)} 0 <= i && i < jobsCachedN(ns, uid) && wanted(jobsCachedAt(ns, uid, i), active) ==> (exists k int :: 0 <= k && k < len(refs) && refOf(refs[k], jobsCachedAt(ns, uid, i))))
+//@     && (forall k int :: {refs[k]} 0 <= k && k < len(refs) ==> (exists i int :: 0 <= i && i < jobsCachedN(ns, uid) && wanted(jobsCachedAt(ns, uid, i), active) && refOf(refs[k], jobsCachedAt(ns, uid, i))))
+// what the property demands of a status, relative to the cached JobConfig and its cached Jobs
+//@ pure accCounts(st execution.JobConfigStatus) bool = st.Active == len(st.ActiveJobs) && st.Queued == len(st.QueuedJobs)
+//@ pure accState(st execution.JobConfigStatus, rjc *execution.JobConfig) bool = st.State == jobconfig.stateFor(st.Active, st.Queued, rjc.Spec.Schedule)
+//@ pure accSched(st execution.JobConfigStatus, ns string, uid string) bool =
+//@     forall i int :: {jobsCachedAt(ns, uid, i)} 0 <= i && i < jobsCachedN(ns, uid) && jobconfig.hasSched(jobsCachedAt(ns, uid, i)) ==> execution.optNs(st.LastScheduled) >= ns(jobconfig.schedTime(jobsCachedAt(ns, uid, i)))
+//@ pure accExec(st execution.JobConfigStatus, ns string, uid string) bool =
+//@     forall i int :: {jobsCachedAt(ns, uid, i)} 0 <= i && i < jobsCachedN(ns, uid) && job.IsStarted(jobsCachedAt(ns, uid, i)) ==> execution.optNs(st.LastExecuted) >= ns(jobsCachedAt(ns, uid, i).Status.StartTime.Time)
+//@ pure accMono(st execution.JobConfigStatus, rjc *execution.JobConfig) bool =
+//@     execution.optNs(st.LastScheduled) >= execution.optNs(rjc.Status.LastScheduled) && execution.optNs(st.LastExecuted) >= execution.optNs(rjc.Status.LastExecuted)
+
+//@ func Reconciler.listJobsForJobConfig
+//@   tags C15
+//@   requires rjc != nil
+//@   fresh result0
+//@   ensures [C15] result1 == nil ==> len(result0) == jobsCachedN(rjc.Namespace, string(rjc.UID))
+//@        && (forall i int :: {result0[i]} {jobsCachedAt(rjc.Namespace, string(rjc.UID), i)} 0 <= i && i < len(result0) ==> result0[i] == jobsCachedAt(rjc.Namespace, string(rjc.UID), i) && result0[i] != nil && allocated(result0[i]) && preexisting(result0[i]))
+//@   ensures [C15] result1 == nil ==> distinctJobs(result0)
+//@   ensures result1 != nil ==> len(result0) == 0
+
+// One sync of a JobConfig (namespace, name): c is the cached JobConfig, (c.Namespace, c.UID) select its Jobs in the Job cache.
+//@ func Reconciler.SyncOne
+//@   tags C15, C20
+//@   modifies jcwN, jcwObj, jcwOK
+//@   loop 1 invariant true
+//@   loop 2 invariant true
+//@   loop 3 invariant true
+//@   ensures [C15,C20] at-most-one-write: jcwN == old(jcwN) || jcwN == old(jcwN) + 1
+//@   ensures [C15] written-identity: jcwN == old(jcwN) + 1 ==> jcCached(namespace, name) != nil
+//@        && jcwObj[old(jcwN)].Name == name && jcwObj[old(jcwN)].Namespace == namespace && jcwObj[old(jcwN)].UID == jcCached(namespace, name).UID
+//@   ensures [C15] written-counts-match-lists: jcwN == old(jcwN) + 1 ==> accCounts(jcwObj[old(jcwN)].Status)
+//@   ensures [C15] written-active-jobs-exact: jcwN == old(jcwN) + 1 ==> listsExactly(jcwObj[old(jcwN)].Status.ActiveJobs, old(jcCached(namespace, name).Namespace), old(string(jcCached(namespace, name).UID)), true)
+//@   ensures [C15] written-queued-jobs-exact: jcwN == old(jcwN) + 1 ==> listsExactly(jcwObj[old(jcwN)].Status.QueuedJobs, old(jcCached(namespace, name).Namespace), old(string(jcCached(namespace, name).UID)), false)
+//@   ensures [C15] written-state-reflects-counts: jcwN == old(jcwN) + 1 ==> accState(jcwObj[old(jcwN)].Status, jcCached(namespace, name))
+//@   ensures [C15] written-last-scheduled-covers-jobs: jcwN == old(jcwN) + 1 ==> accSched(jcwObj[old(jcwN)].Status, old(jcCached(namespace, name).Namespace), old(string(jcCached(namespace, name).UID)))
+//@   ensures [C15] written-last-executed-covers-jobs: jcwN == old(jcwN) + 1 ==> accExec(jcwObj[old(jcwN)].Status, old(jcCached(namespace, name).Namespace), old(string(jcCached(namespace, name).UID)))
+//@   ensures [C15] written-times-never-move-back: jcwN == old(jcwN) + 1 ==> accMono(jcwObj[old(jcwN)].Status, jcCached(namespace, name))
+//@   ensures [C15] quiet-counts-match-lists: result == nil && jcwN == old(jcwN) && jcCached(namespace, name) != nil ==> accCounts(jcCached(namespace, name).Status)
+//@   ensures [C15] quiet-active-jobs-exact: result == nil && jcwN == old(jcwN) && jcCached(namespace, name) != nil ==> listsExactly(jcCached(namespace, name).Status.ActiveJobs, old(jcCached(namespace, name).Namespace), old(string(jcCached(namespace, name).UID)), true)
+//@   ensures [C15] quiet-queued-jobs-exact: result == nil && jcwN == old(jcwN) && jcCached(namespace, name) != nil ==> listsExactly(jcCached(namespace, name).Status.QueuedJobs, old(jcCached(namespace, name).Namespace), old(string(jcCached(namespace, name).UID)), false)
+//@   ensures [C15] quiet-state-reflects-counts: result == nil && jcwN == old(jcwN) && jcCached(namespace, name) != nil ==> accState(jcCached(namespace, name).Status, jcCached(namespace, name))
+//@   ensures [C15] quiet-last-scheduled-covers-jobs: result == nil && jcwN == old(jcwN) && jcCached(namespace, name) != nil ==> accSched(jcCached(namespace, name).Status, old(jcCached(namespace, name).Namespace), old(string(jcCached(namespace, name).UID)))
+//@   ensures [C15] quiet-last-executed-covers-jobs: result == nil && jcwN == old(jcwN) && jcCached(namespace, name) != nil ==> accExec(jcCached(namespace, name).Status, old(jcCached(namespace, name).Namespace), old(string(jcCached(namespace, name).UID)))
+//@   ensures [C15,C20] failed-write-is-retried: jcwN == old(jcwN) + 1 && !jcwOK[old(jcwN)] ==> result != nil
